@@ -28,9 +28,38 @@ def run_case(case):
     s, ctx, net = stack.run_pair(ini, tgt, horizon=20.0)
     seen = dict(ini=[], tgt=[])
 
+    def agg_round(llc, first):
+        """Queue three datagrams whose aggregate is d octets off the exact fit
+        and exchange what collect() returns; every collected frame must fit
+        the peer's MIU (the information field is the encoding minus the
+        2-octet header)."""
+        import nfc.llcp
+        m = llc.cfg['send-miu']
+        sock = nfc.llcp.Socket(llc, nfc.llcp.LOGICAL_DATA_LINK)
+        sock.bind(40)
+        a = (m - 12) // 3
+        p = first
+        for d in (-1, 0, 1, 2):
+            for n in (a, a, m - 12 - 2 * a + d):
+                sock.sendto(bytes([0x30 + d & 0xFF]) * n, 41,
+                            nfc.llcp.MSG_DONTWAIT)
+            for _ in range(3):
+                frame = llc.collect() or pdu.Symmetry()
+                size = len(pdu.encode(frame)) - 2
+                agg['max'] = max(agg['max'], size)
+                agg['agf'] += frame.name == 'AGF'
+                if size > m:
+                    agg['bad'].append((llc.cfg['send-miu'], d, size,
+                                       frame.name))
+                p = llc.exchange(frame, 1.0)
+        return p
+    agg = dict(max=0, agf=0, bad=[])
+
     def after_ini(clf, ctx):
         llc = ctx['llc']['ini']
         n = llc.cfg['send-miu']
+        if llc.cfg['send-agf']:
+            agg_round(llc, None)
         for k in range(3):
             p = llc.exchange(pdu.UnnumberedInformation(
                 32, 33, data=bytes([0x40 + k]) * n), 1.0)
@@ -42,6 +71,16 @@ def run_case(case):
         llc = ctx['llc']['tgt']
         n = llc.cfg['send-miu']
         p = llc.exchange(None, 2.0)
+        if ctx['llc']['ini'].cfg['send-agf']:
+            # the initiator runs 12 aggregation exchanges first
+            if llc.cfg['send-agf']:
+                p = agg_round(llc, p)
+            else:
+                for _ in range(12):
+                    p = llc.exchange(pdu.Symmetry(), 1.0)
+        elif llc.cfg['send-agf']:
+            pass      # nothing to answer: aggregation is checked on the
+            #           initiator side only when it is enabled there
         for k in range(3):
             seen['tgt'].append(None if p is None else (p.name, len(
                 getattr(p, 'data', b''))))
@@ -51,7 +90,11 @@ def run_case(case):
 
     ctx['after_ini'], ctx['after_tgt'] = after_ini, after_tgt
     s.run()
-    return judge(case, s, ctx, net, seen)
+    bad, outcome = judge(case, s, ctx, net, seen)
+    for miu, d, size, name in agg['bad'][:1]:
+        bad.append(('traffic|llc-frame-exceeds-miu|%s' % name,
+                    dict(send_miu=miu, offset_from_exact_fit=d, size=size)))
+    return bad, outcome + (agg['agf'] > 0,)
 
 
 def judge(case, s, ctx, net, seen):
